@@ -211,6 +211,19 @@ VH_MAIN_BEGIN
     vh_err = 0x7777;
     rc = CALL;
 
+#ifdef LAYOUT_A
+    /* overlap geometry (elements of the arena): what the call reads of src and writes of dest when nothing else is wrong */
+    size_t dl_ = dl, n_ = n;
+    int dterm_ = dterm;
+    size_t rd = n_ + (sterm ? 1 : 0);             /* read extent of src */
+    size_t wr = base + n_ + 1;                     /* written extent of dest (elements) */
+    size_t d0 = in.doff, s0 = in.soff;
+    int obj_disjoint = ((d0 + dmax <= s0) || (s0 + rd <= d0)) && d0 != s0; /* identical pointers: not judged here */
+    int rw_intersect = !((d0 + (wr < dmax ? wr : dmax) <= s0) || (s0 + rd <= d0 + base));
+    int prec = dmax > 0 && dmax <= RMAX && (!HAS_SLEN || slen <= RMAX) && (!IS_CAT || dterm_) && !ncat0 &&
+               !(HAS_SLEN && in.sbos_known && slen * sizeof(T) > srcbos);
+    (void)dl_; (void)obj_disjoint; (void)rw_intersect; (void)prec; (void)rd; (void)wr; (void)d0; (void)s0;
+#endif
     /* ================= assertions ================= */
 #if defined(PROP_C01)
 #if !defined(LAYOUT_A) && !defined(EXACT)
@@ -239,6 +252,11 @@ VH_MAIN_BEGIN
 #if defined(PROP_C04)
     if (usable && rc != EOK) {
         CHECK("C04", dest[0] == 0, "failed call: dest[0] != 0");
+#if defined(LAYOUT_A) && !defined(NOSLACK)
+        if (rc == ESOVRLP) /* met after copying began: every element of dest[0..dmax) is cleared */
+            for (unsigned i = 0; i < NA; i++)
+                if (i >= d0 && i < d0 + dmax) CHECK("C04", arena[i] == 0, "overlap failure: dest holds part of the copy");
+#endif
 #ifndef LAYOUT_A
         for (unsigned i = 0; i < NMAX; i++)
 #ifndef KF_NOSLACK_PARTIAL
@@ -271,8 +289,8 @@ VH_MAIN_BEGIN
         if (ncat0 && dnull && dmax == 0) viol = 0; /* documented silent EOK */
 #ifdef LAYOUT_A
         /* overlap: decided in C07; here only that whatever is reported is reported once */
-        if (rc != EOK) viol = 1;
-        if (rc == EOK) viol = 0;
+        if (!viol && prec && in.doff != in.soff && rw_intersect) viol = 1; /* reads and writes intersect */
+        else if (!viol && !obj_disjoint) viol = rc != EOK;             /* touching objects, no intersection: C07 */
 #endif
         if (viol) {
             CHECK("C05", rc != EOK, "constraint violated but success returned");
@@ -321,17 +339,6 @@ VH_MAIN_BEGIN
 
 #if defined(PROP_C07) && defined(LAYOUT_A)
     {
-        /* elements of src actually read: up to and incl. terminator, at most slen, at most what fits */
-        size_t dl_ = dl, n_ = n;
-        int dterm_ = dterm;
-        size_t rd = n_ + (sterm ? 1 : 0);             /* read extent of src */
-        size_t wr = base + n_ + 1;                     /* written extent of dest (elements) */
-        size_t d0 = in.doff, s0 = in.soff;
-        int obj_disjoint = ((d0 + dmax <= s0) || (s0 + rd <= d0)) && d0 != s0; /* identical pointers: not judged here */
-        int rw_intersect = !((d0 + (wr < dmax ? wr : dmax) <= s0) || (s0 + rd <= d0 + base));
-        int prec = dmax > 0 && dmax <= RMAX && (!HAS_SLEN || slen <= RMAX) && (!IS_CAT || dterm_) && !ncat0 &&
-                   !(HAS_SLEN && in.sbos_known && slen * sizeof(T) > srcbos);
-        (void)dl_;
         if (prec && obj_disjoint) {
             int fits = base + n_ + 1 <= dmax && (sterm || HAS_SLEN);
             if (fits) {
